@@ -96,13 +96,20 @@ def scan_rules(ctx, R_api, R_stream, R_fwd=None):
                           f"exactly one {want_api[mode]}(pattern=<rule regex>, string=<stream>, timeout) call")
                 # S3 stream
                 bad = []
+                seen_full = False
                 for s in rets:
                     for c in s.regex_calls(I):
                         st = c["kwargs"].get("string", c["args"][1] if len(c["args"]) > 1 else "")
                         want = (r"<inst1\.stringify[^>]*>[^<]*<inst2\.stringify[^>]*>[^<]*" if feed == "two" else
                                 r"JOIN\('',S'<inst\.stringify[^>]*>[^<']*' over consumed instructions\)")
+                        if feed == "many" and st == "''" and any(l.startswith("not ") and "non-empty" in l for l in s.path.cond_labels()):
+                            continue   # the path on which the listing is empty
                         if not re.fullmatch(want, st or ""):
                             bad.append(f"string={st}")
+                        else:
+                            seen_full = True
+                if not seen_full and not bad:
+                    bad.append("no path searches the joined stream")
                 ctx.check(not bad, R_stream, construct, ";".join(sorted(set(bad)))[:200],
                           "the searched string is the in-order concatenation of every consumed record, whole")
                 # S2 forwarding
